@@ -1131,6 +1131,20 @@ class Models(object):
                     for p2, r in self.delitem(ex, p, dv, args[0], None, None):
                         out.append((p2, v))
             return out
+        if name == 'setdefault' and len(args) in (1, 2):
+            default = args[1] if len(args) > 1 else NONE
+            out = []
+            for p, v in ex.index(path, dv, args[0]):
+                if isinstance(v, Raise):
+                    # (KeyError outcome of the lookup: the key is absent on this path) -> insert
+                    p.heap[('dict', dv.did)] = tuple(p.heap[('dict', dv.did)]) + ((args[0], default),)
+                    out.append((p, default))
+                else:
+                    out.append((p, v))
+            return out
+        if name == 'clear' and not args:
+            path.heap[('dict', dv.did)] = ()
+            return [(path, NONE)]
         raise Unsupported('dict method %s' % name)
 
     def map_method(self, ex, path, mv, name, args, kw):
@@ -1150,6 +1164,26 @@ class Models(object):
                 out.append((pt, mv.vt.wrap(z3.simplify(opt.dt.accessor(1, 0)(cell)))))
             if pf is not None:
                 out.append((pf, default))
+            return out
+        if name == 'pop' and len(args) in (1, 2):
+            if mv.origin is None:
+                raise Unsupported('pop on a map value without a known location')
+            opt = TOpt(mv.vt)
+            k = mv.kt.unwrap(args[0])
+            cell = z3.Select(mv.t, k)
+            out = []
+            pt, pf = ex.branch(path, znot(opt.is_none(cell)))
+            if pt is not None:
+                nm = VMap(z3.Store(mv.t, k, opt.dt.constructor(0)()), mv.kt, mv.vt)
+                if mv.keys is not None:
+                    nm.keys = VSeq(seq_remove_fn(mv.keys.t.sort())(mv.keys.t, k), mv.keys.elem)
+                pt.heap[mv.origin] = nm
+                out.append((pt, mv.vt.wrap(z3.simplify(opt.dt.accessor(1, 0)(cell)))))
+            if pf is not None:
+                if len(args) == 2:
+                    out.append((pf, args[1]))
+                else:
+                    out.extend(ex.raise_(pf, KeyError, args[0]))
             return out
         raise Unsupported('map method %s' % name)
 
